@@ -261,6 +261,22 @@ func frontGeneral(fset *token.FileSet, id string, patch string, pcs []*parse.Cha
 			}
 			want, ok := expectedNode(kind, strings.Join(side.t.lines, "\n")+"\n")
 			if !ok {
+				// the text is not what the compiled side is a kind of; if it is well-formed as something else (a statement
+				// list where the compiled side is a single expression, say), part of the text never reached the pattern
+				for _, other := range []string{"stmts", "expr", "decl"} {
+					if other == kind || (other == "decl" && (kind == "gendecl" || kind == "funcdecl")) {
+						continue
+					}
+					if w2, ok2 := expectedNode(other, strings.Join(side.t.lines, "\n")+"\n"); ok2 && !(kind == "stmts" && other == "expr") {
+						if kind == "expr" && other == "stmts" && w2.Kind() == reflect.Slice && w2.Len() == 1 {
+							if _, isExpr := w2.Index(0).Interface().(*ast.ExprStmt); isExpr {
+								continue // a statement list of one expression statement (written in braces, say) is an expression pattern
+							}
+						}
+						fail(fmt.Sprintf("change %d side %d: the text is a %s, the compiled side is a %s", ci, si, other, kind))
+						break
+					}
+				}
 				continue
 			}
 			if canonValue(gotNode) != canonValue(want) {
